@@ -428,6 +428,9 @@ def run(ctx):
     prims_stream(ctx, exe, d, rng, tconst["vals"], 700 if not ctx.thorough else 15000)
     ph["prims_stream"] = round(time.time() - t0, 1)
     reader_depth_probe(ctx, dflt)
+    t0 = time.time()
+    ranges_and_zero_stream(ctx, d)
+    ph["ranges_zero_stream"] = round(time.time() - t0, 1)
     if trec is not None:
         printer_trunc_stream(ctx, exe, dflt, trec, tconst["vals"])
     t0 = time.time()
@@ -1110,6 +1113,122 @@ def printer_trunc_stream(ctx, exe, dflt, trec, consts):
         ctx.broken("inner:printer-truncation", "model (regenerated call sites) and write-simple disagree on %s: model %s, implementation %s (opening parentheses written, \"...\" written)" % bad)
     if cases and lines:
         ctx.sample(dict(kind="printer-truncation", expr=cases[0][3], model=mo[0], impl=lines[0]))
+
+
+# ------------------------------------------------------------------------------------ part 5: zero divisors, range arguments
+ARITH_OPS = ["quotient", "remainder", "modulo", "floor/", "floor-quotient", "floor-remainder", "truncate/", "truncate-quotient",
+             "truncate-remainder", "/", "exact-integer-sqrt", "gcd", "lcm", "expt", "atan", "exact"]
+DIVIDENDS = ["5", "-5", "0", "5.0", "-5.0", "0.0", "(expt 2 70)", "(- (expt 2 70))", "(exact->inexact (expt 2 70))", "1/2", "2.5", "+inf.0", "+nan.0",
+             "(- (expt 2 62))", "(- (expt 2 62) 1)", "1e300"]
+DIVISORS = ["0", "0.0", "-0.0", "(- 5 5)", "(exact->inexact 0)", "(* 0 (expt 2 70))", "0/5"]
+
+RANGE_SUM = r"""
+(define (verif-allowed? x) (if (char? x) (memv x '(#\\a #\\b #\\c #\\z)) (memv x '(1 2 3 9 97 98 99 122))))
+(define (verif-sum thunk)   ; length*4 + (all elements come from the sources ? 2 : 0) + 1;  1 when the value cannot even be walked
+  (let ((x (thunk)))
+    (guard (e (#t 1))
+      (let* ((ls (cond ((string? x) (string->list x)) ((vector? x) (vector->list x)) ((bytevector? x) (vector->list (bytevector->vector x)))
+                       ((list? x) x) (else (list x))))
+             (ok (let lp ((l ls)) (or (null? l) (and (verif-allowed? (car l)) (lp (cdr l)))))))
+        (+ (* 4 (length ls)) (if ok 2 0) 1)))))
+(define (bytevector->vector b) (let ((v (make-vector (bytevector-length b) 0))) (do ((i 0 (+ i 1))) ((= i (bytevector-length b)) v) (vector-set! v i (bytevector-u8-ref b i)))))
+""".replace("\\\\", "\\")
+
+# (name, source expression (length 3), call with {src} and {r}, length of the result when the range is valid: "range" = end-start, or a fixed number)
+RANGE_PROCS = [
+    ("string->list", '(string #\\a #\\b #\\c)', "(string->list {src} {r})", "range"),
+    ("string->vector", '(string #\\a #\\b #\\c)', "(string->vector {src} {r})", "range"),
+    ("string-copy", '(string #\\a #\\b #\\c)', "(string-copy {src} {r})", "range"),
+    ("substring", '(string #\\a #\\b #\\c)', "(substring {src} {r})", "range2"),
+    ("string->utf8", '(string #\\a #\\b #\\c)', "(string->utf8 {src} {r})", "range"),
+    ("string-fill!", '(string #\\a #\\b #\\c)', "(let ((t {src})) (string-fill! t #\\z {r}) t)", 3),
+    ("string-copy!", '(string #\\a #\\b #\\c)', "(let ((t (make-string 5 #\\z))) (string-copy! t 1 {src} {r}) t)", 5),
+    ("write-string", '(string #\\a #\\b #\\c)', "(let ((p (open-output-string))) (write-string {src} p {r}) (get-output-string p))", "range"),
+    ("vector->list", "(vector 1 2 3)", "(vector->list {src} {r})", "range"),
+    ("vector->string", '(vector #\\a #\\b #\\c)', "(vector->string {src} {r})", "range"),
+    ("vector-copy", "(vector 1 2 3)", "(vector-copy {src} {r})", "range"),
+    ("vector-fill!", "(vector 1 2 3)", "(let ((t {src})) (vector-fill! t 9 {r}) t)", 3),
+    ("vector-copy!", "(vector 1 2 3)", "(let ((t (make-vector 5 9))) (vector-copy! t 1 {src} {r}) t)", 5),
+    ("bytevector-copy", "(bytevector 97 98 99)", "(bytevector-copy {src} {r})", "range"),
+    ("bytevector-copy!", "(bytevector 97 98 99)", "(let ((t (make-bytevector 5 122))) (bytevector-copy! t 1 {src} {r}) t)", 5),
+    ("utf8->string", "(bytevector 97 98 99)", "(utf8->string {src} {r})", "range"),
+    ("write-bytevector", "(bytevector 97 98 99)", "(let ((p (open-output-bytevector))) (write-bytevector {src} p {r}) (get-output-bytevector p))", "range"),
+    ("read-bytevector!", "(bytevector 97 98 99)", "(let ((t {src})) (read-bytevector! t (open-input-bytevector (make-bytevector 9 122)) {r}) t)", 3),
+]
+RANGES = [(), (0, 3), (1, 2), (3, 3), (0, 0), (1,), (3,), (0,), (2, 3),
+          (0, 4), (0, 100000), (-1, 3), (-5, 1), (2, 1), (4, 4), (4,), (-1,), (0, FIXMAX), (1 << 61, (1 << 61) + 1), (0, -1), (3, 2), (-100000, 2),
+          ("1.0", 2), ("'a",), ("(expt 2 70)",), (0, "(expt 2 70)"), (0, "2.5"), (FIXMIN, 3), (100000, 100001), (5, 100000)]
+
+
+def ranges_and_zero_stream(ctx, d):
+    """K-outer under ASan: (a) every division-like procedure with every kind of zero divisor and every kind of dividend;
+    (b) every R7RS procedure with optional start/end arguments, with valid, out-of-range, reversed, negative, huge and
+    ill-typed ranges.  Oracle (a): value or error object.  Oracle (b): a valid range (0 <= start <= end <= 3) must give a
+    value of the right length; any other range must give an error object, or a value no longer than the objects involved
+    whose elements all come from them (chibi's heap is one malloc block: ASan cannot see a read of a neighbouring
+    object, the CONTENT of the result can)."""
+    exprs, meta = [], []
+    for op in ARITH_OPS:
+        for b in DIVISORS:
+            for a in DIVIDENDS:
+                if op in ("exact-integer-sqrt", "exact"):
+                    e = "(begin (%s %s) 1)" % (op, b if op == "exact" else a)
+                    if b != DIVISORS[0] and op != "exact":
+                        continue
+                    if op == "exact":
+                        e = "(begin (exact (/ %s %s)) 1)" % (a, b)
+                else:
+                    e = "(begin (%s %s %s) 1)" % (op, a, b)
+                exprs.append(e)
+                meta.append(("arith", op, None, None))
+    for name, src, call, rl in RANGE_PROCS:
+        for r in RANGES:
+            if rl == "range2" and len(r) != 2:
+                continue
+            e = "(verif-sum (lambda () %s))" % call.replace("{src}", src).replace("{r}", " ".join(str(x) for x in r))
+            ints = all(isinstance(x, int) for x in r)
+            st = r[0] if len(r) >= 1 else 0
+            en = r[1] if len(r) >= 2 else 3
+            valid = ints and 0 <= st <= en <= 3
+            exprs.append(e)
+            meta.append(("range", name, valid, ((en - st) if rl in ("range", "range2") else rl) if valid else None))
+    io = run_cases(d, exprs, prelude_extra=RANGE_SUM, timeout=600, extra_env=ASAN_ENV, max_crashes=8)
+    soft = {}
+    for e, (kind, name, valid, ln), r in zip(exprs, meta, io):
+        ctx.count(1, key=("rz", e), nontrivial=True)
+        if r == "SKIPPED":
+            continue
+        rep = replay_cmd(d, e.replace("(verif-sum (lambda () ", "(begin (begin ") if kind == "range" else e)
+        if r is None or r.startswith("CRASH") or r == "TIMEOUT":
+            ctx.violation("%s:%s:crash" % (kind, name), input=e, expected="a value or an error object", observed=r, replay=rep)
+            continue
+        if kind == "arith":
+            continue
+        is_err = r.startswith("ERR")
+        if valid:
+            if is_err:
+                soft.setdefault(name, (e, "a value (the range is valid)", r))
+            elif r != "f%x" % (4 * ln + 3):
+                ctx.violation("range:%s:wrong-result" % name, input=e, expected="a result of %d elements taken from the source" % ln, observed=_decode_sum(r), replay=rep)
+            continue
+        if is_err:
+            continue
+        code = _z(r[1:]) if r.startswith("f") else -1
+        limit = 5
+        if code < 0 or (code >> 2) > limit or not (code & 2):
+            ctx.violation("range:%s:out-of-bounds-value" % name, input=e,
+                          expected="an error object (the range is not inside the object), or a value made of the objects' own elements",
+                          observed=_decode_sum(r), replay=rep)
+    for name, (e, exp, got) in soft.items():
+        ctx.broken("outer:range:" + name, "%s: expected %s, implementation answered %s" % (e, exp, got))
+    ctx.sample(dict(kind="range", expr=exprs[-1], impl=io[-1]))
+
+
+def _decode_sum(r):
+    if r.startswith("f"):
+        c = _z(r[1:])
+        return "a value of %d elements, %s" % (c >> 2, "all from the sources" if c & 2 else "NOT all from the sources (foreign memory)")
+    return r
 
 
 def _z(s):
